@@ -158,6 +158,7 @@ func (ord *Order) ValidateWithContext(ctx context.Context) error {
 	return tax.ValidateStructWithContext(ctx, ord,
 		validation.Field(&ord.Regime),
 		validation.Field(&ord.Addons),
+		validation.Field(&ord.Tags.List, tax.TagsIn(ord.supportedTags()...)),
 		validation.Field(&ord.UUID),
 		validation.Field(&ord.Type,
 			validation.Required,
@@ -197,6 +198,17 @@ func (ord *Order) ValidateWithContext(ctx context.Context) error {
 		validation.Field(&ord.Meta),
 		validation.Field(&ord.Attachments),
 	)
+}
+
+func (ord *Order) supportedTags() []cbc.Key {
+	var ts *tax.TagSet
+	if r := ord.RegimeDef(); r != nil {
+		ts = ts.Merge(tax.TagSetForSchema(r.Tags, ShortSchemaOrder))
+	}
+	for _, a := range ord.AddonDefs() {
+		ts = ts.Merge(tax.TagSetForSchema(a.Tags, ShortSchemaOrder))
+	}
+	return ts.Keys()
 }
 
 // validationContext builds a context with all the validators that the order might
